@@ -195,13 +195,14 @@ def cases(rng):
                                                     [cls_run(M.R2Score, {}, a[:, d], b[:, d]) for d in range(D)])
     # ---- retrieval queries
     Q = rng.choice([2, 3]) if not wide else 130
-    k = rng.choice([1, 2, 3])
+    k = rng.choice([1, 2, 3, 5, 8])           # often more than the documents of the shorter queries
+    lim = rng.random() < 0.5
     idx = torch.tensor([rng.randrange(Q) for _ in range(n)] + list(range(Q)))
     rs = torch.tensor(rng.sample(range(1, 2000), n + Q)) / 2048
     ry = torch.tensor([rng.randint(0, 1) for _ in range(n + Q)])
     for nm, cls in (("RetrievalPrecision", M.RetrievalPrecision), ("RetrievalRecall", M.RetrievalRecall)):
-        yield nm, lambda cls=cls: check_rows(cls_run(cls, {"k": k, "num_queries": Q, "avg": "none"}, rs, ry, indexes=idx),
-                                             [lambda q=q: cls_run(cls, {"k": k}, rs[idx == q], ry[idx == q])() for q in range(Q)],
+        yield nm, lambda cls=cls: check_rows(cls_run(cls, {"k": k, "num_queries": Q, "avg": "none", "limit_k_to_size": lim}, rs, ry, indexes=idx),
+                                             [lambda q=q: cls_run(cls, {"k": k, "limit_k_to_size": lim}, rs[idx == q], ry[idx == q])() for q in range(Q)],
                                              first)
 
 
